@@ -518,7 +518,7 @@ class Sim(object):
                     continue
                 if isinstance(prim, (list, tuple)):
                     prim = (x for x in list(prim))       # (a generator, as Association.send hands over)
-                self.provider.from_service_user.items.append(prim)
+                self.provider.send(prim)       # (the public route the service user takes)
                 return
             if k == 'call':
                 act['fn'](self)
@@ -566,7 +566,7 @@ class Sim(object):
                 if prim is not None:
                     if isinstance(prim, (list, tuple)):
                         prim = (x for x in list(prim))       # (a generator, as Association.send hands over)
-                    self.provider.from_service_user.items.append(prim)
+                    self.provider.send(prim)       # (the public route the service user takes)
             elif k == 'call':
                 act['fn'](self)
             elif k == 'kill':
